@@ -161,8 +161,24 @@ func (o *opCase) run(c *Ctx, d Delivery) (*harness.Result, *world.SimReader) {
 // runSeek: with seekFail the device's Seek method fails (a pipe, a socket, a forward-only
 // wrapper); entry points that take a plain io.Reader have no business calling it.
 func (o *opCase) runSeek(c *Ctx, d Delivery, seekFail bool) (*harness.Result, *world.SimReader) {
+	return o.runAt(c, d, seekFail, nil, false)
+}
+
+// runAt: the stream is the rest of a larger one - the device holds before++data and the caller
+// has already taken the bytes of before (by reading, or with Seek) when it hands the reader over.
+func (o *opCase) runAt(c *Ctx, d Delivery, seekFail bool, before []byte, seek bool) (*harness.Result, *world.SimReader) {
 	f := o.fault()
 	f.SeekFail = seekFail
+	if len(before) > 0 {
+		content := append(append([]byte(nil), before...), o.data...)
+		if f.Kind != 0 {
+			f.K += len(before)
+		}
+		r := newReader(c.Dev, content, f, d)
+		env := o.spec.New(c.Dev)
+		env.Prepos, env.PreposSeek = len(before), seek
+		return invoke(c, o.e, env, r), r
+	}
 	r := newReader(c.Dev, o.data, f, d)
 	env := o.spec.New(c.Dev)
 	res := invoke(c, o.e, env, r)
